@@ -1,12 +1,16 @@
 #!/bin/bash
 # Re-runs every filed seeded change against the checks recorded as catching it (quick tier) and
-# prints one line per (change, check): CAUGHT or MISSED. Serial: it patches /repo temporarily.
+# prints one line per (change, check): CAUGHT or MISSED. Uses tools/try_mutant.sh (scratch worktrees
+# of /repo, never /repo itself) in SLOTS parallel slots (default 4).
 cd /verif
-for d in seeded/*/; do
-  id=$(basename "$d")
-  for prop in $(python3 -c "import json,sys; print(' '.join(json.load(open('$d/meta.json')).get('caught_by',[])))"); do
-    if ! git -C /repo apply --check "/verif/$d/patch.diff" 2>/dev/null; then echo "$id $prop PATCH-DOES-NOT-APPLY"; continue; fi
-    out=$(tools/try_mutant.sh "$d/patch.diff" "$prop" quick 2>&1)
+SLOTS=${SLOTS:-4}
+jobs=$(for d in seeded/*/; do id=$(basename "$d"); for prop in $(python3 -c "import json; print(' '.join(json.load(open('$d/meta.json')).get('caught_by',[])))"); do echo "$id $prop"; done; done)
+worker() {
+  slot=$1
+  echo "$jobs" | awk -v n=$SLOTS -v s=$slot 'NR % n == s' | while read id prop; do
+    out=$(MUT_SLOT=$slot tools/try_mutant.sh "seeded/$id/patch.diff" "$prop" quick 2>&1)
     if echo "$out" | grep -q "^VIOLATION property=$prop"; then echo "$id $prop CAUGHT"; else echo "$id $prop MISSED: $(echo "$out" | tail -2 | tr '\n' ' ' | cut -c1-200)"; fi
   done
-done
+}
+for s in $(seq 0 $((SLOTS-1))); do worker $s & done
+wait
